@@ -257,6 +257,9 @@ class Runner:
         mem = "".join(" o%d=%s" % (i, enc(self._plain(o))) for i, o in enumerate(self.objs))
         return "st" + "".join(parts) + " | mem" + mem
 
+    def root_objs(self):
+        return self.objs
+
     def target(self, h):
         if h[0] == "o":
             return self.objs[int(h[1:])]
